@@ -114,11 +114,12 @@ def gen_c06(ctx):
                 for tail in (['N'], [dict(late=late)], ['D', 'N']):
                     ls = [dict(frag=(6 if k == 'udp' else 10), delay=d1, second='exact'), dict(late=late)] + tail
                     out.append(base(k, ka, 2, ls, default='N', phases=[[req(0, 0, count=2), req(1, 0, reg=300, count=2), req(2, 0, reg=500, count=2)]]))
+    # (the first piece of a fragmented answer always contains the whole header: a shorter piece is an invalid response to the library, C07)
     for _ in range(20 if not ctx.deep else 300):
         k = ctx.rng.choice(['udp', 'tcp']); ka = ctx.rng.random() < 0.6
         ncall = ctx.rng.randrange(2, 5)
         ops = [req(i, at=ctx.rng.choice([0, 0, 0, 100, 400, 900]), reg=100 + 200 * i, count=2) for i in range(ncall)]
-        ls = [ctx.rng.choice(['N', 'D', 'L', dict(late=ctx.rng.choice([0.6, 0.8, 0.9, 0.95])), dict(frag=ctx.rng.choice([6, 8, 10]), delay=ctx.rng.choice([0.1, 0.4, 0.7]), second='exact')])
+        ls = [ctx.rng.choice(['N', 'D', 'L', dict(late=ctx.rng.choice([0.6, 0.8, 0.9, 0.95])), dict(frag=(ctx.rng.choice([6, 7, 8]) if k == 'udp' else ctx.rng.choice([10, 11, 12])), delay=ctx.rng.choice([0.1, 0.4, 0.7]), second='exact')])
               for _ in range(ctx.rng.randrange(1, 6))]
         out.append(base(k, ka, ctx.rng.choice([1, 2]), ls, default='N', phases=[ops]))
     return out
@@ -285,8 +286,10 @@ def stage_for(prop):
             for mon in MON.MONITORS[prop]:
                 for key, msg in mon(run):
                     st.violation(key, msg, dict(scenario=sc0, monitor=mon.__name__))
-            if run['hang'] and prop in ('C04',):
-                pass
+            # counter-example search: once plenty of concrete failing scenarios are at hand, stop running more of them
+            if sum(1 for v in st.violations if not v.no_input) >= 15 or sum(st.per_key.values()) >= 60:
+                st.notes.append('stopped early: enough concrete failing scenarios')
+                break
         bad, err = PC.check_runs(prop.lower(), [r for _, r in runs])
         if err:
             st.violation('trace-eval', f'model evaluation failed: {err[:500]}', dict(error=err), no_input=True)
